@@ -23,7 +23,8 @@ def gen(rng):
 
 def snapshot(kind, obj):
     if kind == "qf":
-        return (obj._is_occupied.as_string(), obj._is_continuation.as_string(), obj._is_shifted.as_string(), list(obj._filter), obj.elements_added, obj.size)
+        internals = core.qf_internals(obj)
+        return (internals if internals is not None else tuple(sorted(obj.get_hashes())), obj.elements_added, obj.size)
     if kind == "ondisk":
         return (bytes(obj.bloom), obj.elements_added)
     extra = ()
